@@ -641,4 +641,6 @@ def run(ctx):
     ctx.guard(r10, ctx, prog, eng)
     ctx.guard(r11, ctx, prog, eng)
     ctx.guard(r7, ctx, prog, eng, ctxs)
+    from tbxlint import progress
+    ctx.guard(progress.run_files, ctx, prog, 'C01.R12', ['event/common_loop.cpp', 'event/common_loop_run.cpp', 'event/engines/epoll/loop.cpp', 'event/engines/select/loop.cpp'], 'loop run/drain code', floor=1)
     return prog
